@@ -34,6 +34,9 @@ type MultiDB struct {
 	pending []explore.Violation
 	pubSeen int
 	n       int
+	// gated: the instance's topic membership lookups and publishes park until released, and only local
+	// writes are offered (interleavings of concurrent announcements)
+	gated bool
 }
 
 func writeAny(s iface.Store, v string) error {
@@ -203,8 +206,24 @@ func (w *MultiDB) msgLabel(m *sim.Msg) string {
 	return fmt.Sprintf("%s:%s>%s:db%s:%dheads:%x", m.Kind, w.net.Peer(m.From).Name, w.net.Peer(m.To).Name, db, len(msg.Heads), explore.Hash(string(m.Payload))&0xffff)
 }
 
+func (w *MultiDB) prettyGate(l string) string {
+	for i, d := range w.dbs {
+		l = strings.ReplaceAll(l, d.addr, fmt.Sprintf("db%d", i))
+	}
+	return l
+}
+
 func (w *MultiDB) Enabled() []string {
 	var out []string
+	if w.gated {
+		for _, l := range w.net.Gates.Parked() {
+			out = append(out, "ok:"+w.prettyGate(l))
+		}
+		for i := range w.dbs {
+			out = append(out, fmt.Sprintf("write:%d", i))
+		}
+		return out
+	}
 	seen := map[string]bool{}
 	for _, m := range w.net.PubSub.Inflight() {
 		l := w.msgLabel(m)
@@ -234,6 +253,24 @@ func (w *MultiDB) Do(a string) error {
 	}
 	w.n++
 	switch k {
+	case "ok":
+		real := ""
+		for _, l := range w.net.Gates.Parked() {
+			if w.prettyGate(l) == arg {
+				real = l
+			}
+		}
+		if real == "" {
+			return fmt.Errorf("nothing parked under %q", arg)
+		}
+		for i := range w.dbs {
+			if strings.Contains(arg, fmt.Sprintf("|db%d|", i)) {
+				target = i
+			}
+		}
+		if err := w.net.Gates.Release(real, sim.AnswerOK); err != nil {
+			return err
+		}
 	case "write":
 		target = int(arg[0] - '0')
 		if err := writeAny(w.dbs[target].sp, fmt.Sprintf("p%d", w.n)); err != nil {
@@ -335,6 +372,13 @@ func (w *MultiDB) Key() string {
 		ls = append(ls, w.msgLabel(m))
 	}
 	fmt.Fprintf(&b, " msgs=%v", ls)
+	if w.gated {
+		var ps []string
+		for _, l := range w.net.Gates.Parked() {
+			ps = append(ps, w.prettyGate(l))
+		}
+		fmt.Fprintf(&b, " parked=%v", ps)
+	}
 	return b.String()
 }
 
@@ -347,12 +391,17 @@ func (w *MultiDB) Check(hist []string) []explore.Violation {
 }
 
 func (w *MultiDB) Close() {
+	w.net.Gates.Enable(nil)
+	for i := 0; i < 50 && w.net.Gates.ReleaseAll() > 0; i++ {
+		_ = sim.Quiesce()
+	}
 	_ = w.P.Close()
 	_ = w.R.Close()
 	_ = sim.Quiesce()
 }
 
 type C09Arg struct {
+	Gated  bool
 	Kinds  []string
 	Lists  []string
 	Depth  int
@@ -361,7 +410,11 @@ type C09Arg struct {
 }
 
 func (a C09Arg) Name() string {
-	return fmt.Sprintf("multidb/%s/%s/d%d/shard%d.%d", strings.Join(a.Kinds, "+"), strings.Join(a.Lists, "+"), a.Depth, a.Shard, a.Shards)
+	g := ""
+	if a.Gated {
+		g = "/gated-announcements"
+	}
+	return fmt.Sprintf("multidb/%s/%s/d%d%s/shard%d.%d", strings.Join(a.Kinds, "+"), strings.Join(a.Lists, "+"), a.Depth, g, a.Shard, a.Shards)
 }
 
 func init() {
@@ -383,6 +436,12 @@ func init() {
 			} else {
 				cfgs = append(cfgs, C09Arg{Kinds: []string{"eventlog", "keyvalue", "docstore"}, Lists: []string{"both", "*", "both"}, Depth: 3})
 			}
+			gd := 6
+			if tier == "thorough" {
+				gd = 8
+			}
+			cfgs = append(cfgs, C09Arg{Gated: true, Kinds: []string{"eventlog", "eventlog"}, Lists: []string{"both", "both"}, Depth: gd})
+			cfgs = append(cfgs, C09Arg{Gated: true, Kinds: []string{"keyvalue", "eventlog"}, Lists: []string{"both", "*"}, Depth: gd})
 			var u []explore.Unit
 			for _, c := range cfgs {
 				for s := 0; s < 12; s++ {
@@ -407,8 +466,17 @@ func init() {
 				return
 			}
 			d := &explore.DFS{
-				Scenario: a.Name(), Space: fmt.Sprintf("multidb/%s/%s", strings.Join(a.Kinds, "+"), strings.Join(a.Lists, "+")),
-				New:      func() (explore.World, error) { return NewMultiDB(a.Kinds, a.Lists) },
+				Scenario: a.Name(), Space: fmt.Sprintf("multidb/%s/%s/gated=%v", strings.Join(a.Kinds, "+"), strings.Join(a.Lists, "+"), a.Gated),
+				New: func() (explore.World, error) {
+					w, err := NewMultiDB(a.Kinds, a.Lists)
+					if err == nil && a.Gated {
+						w.gated = true
+						w.net.Gates.Enable(func(kind, peer, key, caller string) bool {
+							return peer == "P" && (kind == "topic.peers" || kind == "publish")
+						})
+					}
+					return w, err
+				},
 				MaxDepth: a.Depth, ShardDepth: 1, Shards: a.Shards, Shard: a.Shard,
 				Stats: c.Stats, Journal: c.JournalHist, Poison: c.PoisonSet(), Expired: c.Expired,
 				Nontrivial: func(hist []string, w explore.World) bool {
